@@ -2,7 +2,7 @@
 import os
 import vlib, engine_common as ec
 
-TB = ["Print Assumptions: C03_core_once, C03_core_justified, C03_core_justified_unguarded_refuted, C03_fw_once, C03_model_once, C03_model_justified, C03_model_once_any_task_order, C03_model_justified_any_task_order closed under the global context",
+TB = ["Print Assumptions: C03_core_once, C03_core_justified, C03_core_justified_unguarded_refuted, C03_fw_once, C03_model_once, C03_model_justified, C03_model_once_any_task_order, C03_model_justified_any_task_order, C03_model_justified_x closed under the global context",
       "the theorems are about Engine/Core.v (inputs + Normal queries); executions of firewalls / projections / external inputs are judged on the real engine by the harness (justification of every executor invocation from its own record of previous reads) and compared with the full model, not proved (partial)",
       "the former finding c03_projection_changeback (repaired in /repo, 2e5f36f) is replayed from witness/c03_changeback.txt on every run and must stay clean",
       ] + ec.ENGINE_TB
